@@ -176,6 +176,11 @@ var Queries = []Q{
 	{"1www.example.com.", dns.TypeA, 100},  // NXDOMAIN; its cache key text collides with the previous entry's
 	{"mx.example.com.", dns.TypeAAAA, 0},   // positive v6
 	{"big.example.com.", dns.TypeTXT, 0},   // 24 TXT records: larger than 512 and 1232 bytes
+	{"www.example.com.", dns.TypeCAA, 0},   // NODATA; type 257 = A (1) modulo 256
+	{"example.com.", 65282, 0},             // NODATA; type 65282 = NS (2) modulo 256
+	{"www.example.com.", dns.TypeA, 257},   // class 257 = IN (1) modulo 256
+	{".", dns.TypeNS, 0},                   // the root name: REFUSED (no zone declares it)
+	{".", dns.TypeTXT, 0},                  // the root name, a type the whoami handler synthesizes for its own domain
 }
 
 // BigQuery is the index of the query whose answer does not fit a small UDP buffer.
